@@ -420,9 +420,69 @@ class HeapOps(HeapExecutor):
         return Eq(cls_of(self.rv(a)), cls_of(self.rv(b)))
 
     # ------------------------------------------------------------------ loops over heap lists
+    def _mark_breaks(self, stmts, flag):
+        """statement list with every `break` that leaves THIS loop preceded by `flag = True`"""
+        out = []
+        for b in stmts:
+            if isinstance(b, ast.Break):
+                a = ast.parse('%s = True' % flag).body[0]
+                ast.copy_location(a, b)
+                for sub in ast.walk(a):
+                    ast.copy_location(sub, b)
+                out.extend([a, b])
+            elif isinstance(b, ast.If):
+                b.body = self._mark_breaks(b.body, flag)
+                b.orelse = self._mark_breaks(b.orelse, flag)
+                out.append(b)
+            elif isinstance(b, ast.With):
+                b.body = self._mark_breaks(b.body, flag)
+                out.append(b)
+            elif isinstance(b, ast.Try):
+                b.body = self._mark_breaks(b.body, flag)
+                for hnd in b.handlers:
+                    hnd.body = self._mark_breaks(hnd.body, flag)
+                b.orelse = self._mark_breaks(b.orelse, flag)
+                b.finalbody = self._mark_breaks(b.finalbody, flag)
+                out.append(b)
+            else:
+                if isinstance(b, (ast.For, ast.While)) and any(isinstance(x, ast.Break) for o in b.orelse
+                                                               for x in ast.walk(o)):
+                    raise Unsupported('break inside the else clause of a nested loop (line %s)' % b.lineno)
+                out.append(b)
+        return out
+
     def st_For(self, s, st):
-        if s.orelse:
-            raise Unsupported('for-else')
+        # for ... else: desugared once per AST node into  flag = False; for ...: (flag = True; break); if not flag: ELSE
+        fe = getattr(s, '_forelse', None)
+        if s.orelse and fe is None:
+            flag = '_forelse_brk_%d' % s.lineno
+            s.body = self._mark_breaks(s.body, flag)
+            s._forelse = fe = (flag, s.orelse)
+            s.orelse = []
+        if fe is not None:
+            flag, orelse = fe
+            st = st.copy()
+            st.env = dict(st.env)
+            st.env[flag] = self.lit(False)
+            out = []
+            for o in self._st_For_plain(s, st):
+                if o.status != 'run':
+                    out.append(o)
+                    continue
+                for o2, cnd in self.truthy(o.env[flag], o):
+                    if not o2.running:
+                        out.append(o2)
+                        continue
+                    brk = o2.assume(cnd)
+                    if brk is not None:
+                        out.append(brk)
+                    done = o2.assume(Not(cnd))
+                    if done is not None:
+                        out.extend(self.exec_block(orelse, done))
+            return out
+        return self._st_For_plain(s, st)
+
+    def _st_For_plain(self, s, st):
         wrap = None
         iter_expr = s.iter
         if isinstance(iter_expr, ast.Call) and isinstance(iter_expr.func, ast.Name) and \
@@ -583,6 +643,18 @@ class HeapOps(HeapExecutor):
             raise Unsupported('while loop %d of %s has no invariant in the sidecar (line %s)' % (ordn, fi.fid, s.lineno))
         if self.writes_heap(s.body):
             raise Unsupported('while body writes the heap (line %s)' % s.lineno)
+        # `_w` in the sidecar stands for THE variable the loop assigns (robust against renaming it)
+        import re as _re
+        assigned_w = sorted(self.assigned_names(s))
+        wname = assigned_w[0] if len(assigned_w) == 1 else None
+
+        def _w(src):
+            if src is None or '_w' not in src:
+                return src
+            if wname is None:
+                raise Unsupported('_w used but the while loop at line %s assigns %d variables' % (s.lineno, len(assigned_w)))
+            return _re.sub(r'\b_w\b', wname, src)
+        inv_src = _w(inv_src)
         g0, extra0 = self.eval_spec(inv_src, st, env_extra=dict(st.env))
         st = st.copy()
         st.obls.append(('inv[loop%d].init' % ordn, list(st.pc) + list(extra0), g0, inv_src))
@@ -591,6 +663,8 @@ class HeapOps(HeapExecutor):
             h.env[name] = const(fresh_name('hv_' + name), VAL)
         types = getattr(c, 'loop_var_types', {}) or {}
         for name, names in types.items():
+            if name == '_w':
+                name = wname
             if name in h.env:
                 v = h.env[name]
                 r = self.rv(v)
@@ -602,7 +676,7 @@ class HeapOps(HeapExecutor):
         out = []
         if h is None:
             return out
-        dec_src = (getattr(c, 'decreases', None) or {}).get(ordn) if c is not None else None
+        dec_src = _w((getattr(c, 'decreases', None) or {}).get(ordn) if c is not None else None)
         for o, cnd in self.ev_cond(s.test, h):
             if not o.running:
                 out.append(o)
@@ -783,6 +857,7 @@ class HeapOps(HeapExecutor):
     def assigned_names(self, loop):
         names = set()
         for node in ast.walk(loop):
-            if isinstance(node, ast.Name) and isinstance(node.ctx, ast.Store):
+            if isinstance(node, ast.Name) and isinstance(node.ctx, ast.Store) \
+                    and not node.id.startswith('_forelse_brk_'):      # set only right before leaving the loop
                 names.add(node.id)
         return names
